@@ -1,12 +1,12 @@
-"""C19 - estimators are unbiased where promised; relaxed distributions are consistent.
-
-Minimal wrapper: the bounded run-time contracts live in contracts/C19_rt.py (the deductive part, when
-it exists, is added here).
-"""
-from contracts import C19_rt
+"""C19 - estimators are unbiased where promised; relaxed distributions are consistent."""
+from contracts import C19_rt, C19_vc
+from vf.pyvc import api
 
 CHECKERS = dict(C19_rt.CHECKERS)
 
 
 def run(ctx):
+    api.run_vcs(ctx, C19_vc.vcs(ctx), {
+        "C19.srswor.cardinality": "fixed-cardinality sampling: loop invariant on the real sampler, symbolic vector size: exactly `given` ones, all below `total`; bernoulli probabilities in [0,1]",
+        "C19.lb.threshold_csample": "LogisticBernoulli: threshold(csample(b)) = b for all probabilities, noise and b (sign axioms of log)"})
     C19_rt.run_bounded(ctx)
